@@ -480,6 +480,51 @@ def _ifft(a, n=None, axis=-1, norm=None, out=None):
     return _fft_any(a, n, axis, True)
 
 
+@handles(np.fft.rfft)
+def _rfft(a, n=None, axis=-1, norm=None, out=None):
+    """one-sided DFT of a real record: bins 0..n//2 of the n-point DFT (input cropped / zero padded to n)."""
+    p = _plain(a)
+    ax = -1 if axis is None else axis
+    nn = p.shape[ax] if n is None else int(n)
+    full = _plain(_fft_any(a, nn, ax, False))
+    full = np.moveaxis(full, ax, -1)[..., :nn // 2 + 1]
+    return wrap(np.moveaxis(full, -1, ax))
+
+
+@handles(np.fft.irfft)
+def _irfft(a, n=None, axis=-1, norm=None, out=None):
+    """inverse of rfft: Hermitian extension of the m one-sided bins to n points (n = 2(m-1) by default); like NumPy,
+    the imaginary parts of bin 0 (and of the Nyquist bin for even n) are ignored, and the result is real."""
+    p = _plain(a)
+    ax = -1 if axis is None else axis
+    p = np.moveaxis(p, ax, -1)
+    m = p.shape[-1]
+    nn = 2 * (m - 1) if n is None else int(n)
+    if nn < 1:
+        raise ValueError('Invalid number of data points (%d) specified.' % nn)
+    need = nn // 2 + 1
+    out_ = np.empty(p.shape[:-1] + (nn,), dtype=object)
+
+    def re_(v):
+        return v.re if hasattr(v, 're') else (v.real if isinstance(v, complex) else v)
+
+    def conj_(v):
+        from vf.engine import scalars as S_
+        if isinstance(v, S_.SC):
+            return S_.SC(v.re, -v.im)
+        return v.conjugate() if isinstance(v, complex) else v
+    for ix in np.ndindex(*p.shape[:-1]):
+        half = [p[ix + (k,)] if k < m else 0.0 for k in range(need)]
+        half[0] = re_(half[0])
+        if nn % 2 == 0:
+            half[need - 1] = re_(half[need - 1])
+        fullv = list(half) + [conj_(half[nn - k]) for k in range(need, nn)]
+        row = dft_1d(fullv, nn, True)
+        for k, v in enumerate(row):
+            out_[ix + (k,)] = re_(v)
+    return wrap(np.moveaxis(out_, -1, ax))
+
+
 def fftpack_fft(x, n=None, axis=-1, overwrite_x=False):
     if isinstance(x, np.ndarray) and x.dtype == object:
         return _fft_any(x, n, axis, False)
